@@ -199,6 +199,23 @@ def search(pid, records, repo, scratch, seeds=4000, steps=80, tags=None):
                 rec['tried'] = tried
                 return rec
             other.append(rec)
+            # histories that fail for other properties are skipped: look for one that fails for this property
+            for extra_args in (['focus=' + ','.join(sorted(want))], ['continue', 'focus=' + ','.join(sorted(want))]):
+                try:
+                    p3 = drv(root, ['explore', col, str(seeds), str(steps)] + extra_args, timeout=120)
+                    j3 = json.loads(p3.stdout.strip().split('\n')[-1])
+                except Exception as ex:
+                    tried.append({'collection': col, 'focus_mode': repr(ex)[:200]})
+                    continue
+                tried.append({'collection': col, 'mode': ' '.join(extra_args), 'ok': j3.get('ok')})
+                if not j3.get('ok'):
+                    ce3 = j3.get('counterexample', '')
+                    mo3 = re.match(r'^(?:seed \d+: )?\[([^\]]*)\]', ce3)
+                    tags3 = mo3.group(1).split(',') if mo3 else []
+                    if want & set(tags3):
+                        return {'found': True, 'input': ce3, 'tags': tags3, 'collection': col, 'other_property_first': ce[:300],
+                                'how': 'replay driver: pseudo-random histories on the real code (histories failing for other properties skipped)',
+                                'rerun': 'replay explore %s %d %d %s' % (col, seeds, steps, ' '.join(extra_args)), 'tried': tried}
     return {'found': False, 'tried': tried, 'counterexamples_for_other_properties': other[:2]}
 
 
